@@ -22,6 +22,8 @@ pub mod refwin;
 pub mod sched;
 /// explicit-state model of the streaming parse buffer machine (C10, C09)
 pub mod bufmodel;
+/// C10 real-code runners, input families and per-input check shared by c10 / c10real
+pub mod c10common;
 
 #[global_allocator]
 static GLOBAL: alloc::Tracking = alloc::Tracking;
